@@ -2,24 +2,49 @@
    config file.  Only statements closed by [exact]; lemmas live in
    Proofs/CredFile.v, Proofs/CredSave.v, Proofs/CredConc.v, Proofs/Base64.v.
    base64 is a parameter [enc]/[dec] with the two stated hypotheses; both are
-   proved for the concrete RFC 4648 codec of Model/Base64.v (theorems C18_base64_...). *)
+   proved for the concrete RFC 4648 codec of Model/Base64.v (C18_base64_roundtrip,
+   C18_base64_nonempty), which gives the hypothesis-free C18_roundtrip_concrete. *)
 From Oras Require Import Base.Prelude Base.FlatFS Generated.GC18
-  Model.Base64 Model.CredFile Model.CredSave Proofs.CredFile Proofs.CredSave.
+  Model.Base64 Model.CredFile Model.CredSave Model.CredConc
+  Proofs.Base64 Proofs.CredFile Proofs.CredSave Proofs.CredConc.
 
 (* Put then Get -- after any further history that does not Put/Delete the same
    address -- returns exactly the stored credential, whatever order Go's map
    iteration takes (every candidate answer is the stored credential). *)
 Theorem C18_roundtrip :
-  forall (enc : str -> str) (dec : str -> option str),
-    (forall s, dec (enc s) = Some s) -> (forall s, enc s = [] -> s = []) ->
+  forall (enc : str -> str) (dec : str -> option str) (ok : str -> Prop),
+    (forall s, ok s -> dec (enc s) = Some s) -> (forall s, enc s = [] -> s = []) ->
     forall st a c h,
       contains colon (c_user c) = false ->
+      ok (c_user c ++ colon :: c_pass c) ->
       (forall o, In o h -> ~ writes a o) ->
       snd (step enc dec st (Put a c)) = ROk /\
       get_candidates dec (cache_of (run enc dec (fst (step enc dec st (Put a c))) h)) a = [RCred c] /\
       snd (step enc dec (run enc dec (fst (step enc dec st (Put a c))) h) (Get a)) = RCred c.
 Proof. exact roundtrip. Qed.
 Print Assumptions C18_roundtrip.
+
+(* the concrete base64 codec satisfies both hypotheses on byte strings *)
+Theorem C18_base64_roundtrip :
+  forall s, Forall (fun c => c < 256) s -> b64_decode (b64_encode s) = Some s.
+Proof. exact b64_roundtrip. Qed.
+Print Assumptions C18_base64_roundtrip.
+
+Theorem C18_base64_nonempty : forall s, b64_encode s = [] -> s = [].
+Proof. exact b64_encode_nonempty. Qed.
+Print Assumptions C18_base64_nonempty.
+
+(* the round trip with the real codec: no hypothesis left but "bytes are bytes" *)
+Theorem C18_roundtrip_concrete :
+  forall st a c h,
+    contains colon (c_user c) = false ->
+    Forall (fun x => x < 256) (c_user c ++ colon :: c_pass c) ->
+    (forall o, In o h -> ~ writes a o) ->
+    snd (step b64_encode b64_decode st (Put a c)) = ROk /\
+    get_candidates b64_decode (cache_of (run b64_encode b64_decode (fst (step b64_encode b64_decode st (Put a c))) h)) a = [RCred c] /\
+    snd (step b64_encode b64_decode (run b64_encode b64_decode (fst (step b64_encode b64_decode st (Put a c))) h) (Get a)) = RCred c.
+Proof. exact (roundtrip b64_encode b64_decode bytes b64_roundtrip b64_encode_nonempty). Qed.
+Print Assumptions C18_roundtrip_concrete.
 
 (* a colon in the username is refused and nothing changes *)
 Theorem C18_colon_refused :
@@ -112,6 +137,46 @@ Theorem C18_save_complete :
 Proof. exact save_complete. Qed.
 Print Assumptions C18_save_complete.
 
+(* one store operation down to the file system: for every state, operation,
+   JSON writer/reader pair with parse (render d) = d, split of the content over
+   write calls and crash cut, a reader of the config path finds the complete old
+   document or the complete new one (then with mode 0600); after the last
+   micro-step it finds the new one; no other file changes *)
+Theorem C18_atomic_op :
+  forall (enc : str -> str) (dec : str -> option str)
+         (render : fdoc -> str) (parse : str -> option fdoc) (chunking : str -> list str),
+    (forall d, parse (render d) = Some d) -> (forall x, concat (chunking x) = x) ->
+    forall (dir p t : path) st o s pre,
+      t <> p -> fget t s = None ->
+      disk_view parse p s = view_of (st_file st) ->
+      crash_cut (op_steps enc dec render chunking dir p t st o) pre ->
+      let st' := fst (step enc dec st o) in
+      let s' := exec_all s pre in
+      (disk_view parse p s' = view_of (st_file st) \/
+       disk_view parse p s' = view_of (st_file st') /\
+       (saves st o = true -> exists f, fget p s' = Some f /\ f_mode f = mode_file)) /\
+      (pre = op_steps enc dec render chunking dir p t st o -> disk_view parse p s' = view_of (st_file st')) /\
+      (forall q, q <> p -> q <> t -> fget q s' = fget q s).
+Proof. exact atomic_op. Qed.
+Print Assumptions C18_atomic_op.
+
+(* concurrent callers on one store.  Operations are NOT atomic in the model
+   (lock, cache update, file write, unlock are separate steps of a transition
+   system; sync.RWMutex is its specification).  Every complete execution from an
+   initial state has a sequential order [lin] of all operations such that the
+   final store (memory and file) is the sequential result, every operation
+   returned what it returns in that order, and the order restricted to a caller
+   is that caller's program with the results it received. *)
+Theorem C18_serialisable :
+  forall (enc : str -> str) (dec : str -> option str) g0 g lin,
+    initial g0 -> creach enc dec g0 g lin -> quiescent g ->
+    g_store g = run enc dec (g_store g0) (map lab_op lin) /\
+    map lab_res lin = seq_results enc dec (g_store g0) (map lab_op lin) /\
+    (forall i, of_thread i lin = rev (t_done (g_threads g i)) /\
+               map fst (rev (t_done (g_threads g i))) = t_todo (g_threads g0 i)).
+Proof. exact serialisable. Qed.
+Print Assumptions C18_serialisable.
+
 (* hypotheses are satisfiable / the statements are not vacuous *)
 Example C18_example_roundtrip :
   let c := {| c_user := b "user"; c_pass := b "pa:ss"; c_refresh := b "rt"; c_access := [] |} in
@@ -130,4 +195,36 @@ Example C18_example_atomic :
 Proof.
   split; [|vm_compute; repeat split; reflexivity].
   vm_compute. do 4 apply cut_later. apply (cut_partial _ [119] []).
+Qed.
+
+(* two callers, a writer and a reader that overlaps the writer's critical
+   section attempt: a complete execution exists (the hypotheses of
+   C18_serialisable are satisfiable) *)
+Example C18_example_concurrent :
+  let c := {| c_user := b "u"; c_pass := b "p"; c_refresh := []; c_access := [] |} in
+  let g0 := {| g_store := {| st_mem := empty_mem; st_file := None |}; g_writer := None;
+               g_threads := fun i => match i with
+                                     | O => {| t_pc := Idle; t_todo := [Put (b "r") c]; t_done := [] |}
+                                     | 1%nat => {| t_pc := Idle; t_todo := [Get (b "r")]; t_done := [] |}
+                                     | _ => {| t_pc := Idle; t_todo := []; t_done := [] |}
+                                     end |} in
+  initial g0 /\
+  exists g lin, creach b64_encode b64_decode g0 g lin /\ quiescent g /\
+                map lab_res lin = [ROk; RCred c].
+Proof.
+  intros c g0. split.
+  - split; [reflexivity|]. intros [|[|i]]; split; reflexivity.
+  - eexists. eexists. split; [|split].
+    + eapply cr_step. eapply cr_step. eapply cr_step. eapply cr_step.
+      eapply cr_step. eapply cr_step. eapply cr_step. apply cr_refl.
+      * apply (c_acq_w _ _ g0 0%nat (Put (b "r") c) []); try reflexivity.
+        intros [|[|j]]; simpl; tauto.
+      * eapply (c_wcache _ _ _ 0%nat). reflexivity.
+      * eapply (c_wfile _ _ _ 0%nat). reflexivity.
+      * eapply (c_rel_w _ _ _ 0%nat). reflexivity.
+      * eapply (c_acq_r _ _ _ 1%nat); reflexivity.
+      * eapply (c_read _ _ _ 1%nat). reflexivity.
+      * eapply (c_rel_r _ _ _ 1%nat). reflexivity.
+    + intros [|[|i]]; split; reflexivity.
+    + vm_compute. reflexivity.
 Qed.
